@@ -612,7 +612,11 @@ fn digest(s: &str) -> String {
         Ok(("", t)) if t.target == s && t.value.is_none() => enc(t.target),
         _ => "~".to_string(),
     };
-    let r = if xml_parser::reference(&format!("&{};", s)).is_ok() { 1 } else { 0 };
+    // as create_entity_reference reads it: the whole string is one reference to a general entity of that name
+    let r = match xml_parser::reference(&format!("&{};", s)) {
+        Ok(("", xml_parser::model::Reference::Entity(v))) if v == s => 1,
+        _ => 0,
+    };
     let t = match xml_parser::content(s) {
         Ok((rest, c)) => rest.is_empty() && c.children.is_empty(),
         Err(_) => false,
